@@ -48,7 +48,8 @@ def cyclic(graph, nodes):
 
 def run_case(b, case):
     """case = (graph {name: (deps...)}, listing [names], set of names that have a .so)"""
-    graph, listing, have = case
+    graph, listing, have = case[:3]
+    nopost = case[3] if len(case) > 3 else frozenset()
     d = getattr(_tls, 'dir', None)
     if d is None:
         d = _tls.dir = tempfile.mkdtemp(prefix='c20-', dir=b)
@@ -56,12 +57,13 @@ def run_case(b, case):
         for nm in names(6):
             shutil.copy(os.path.join(b, 'stubs', 'stub.so'), os.path.join(d, 'mods', nm + '.so'))
     mods = os.path.join(d, 'mods')
-    if have is not None:
-        mods = os.path.join(d, 'mods-' + '-'.join(sorted(have)))
+    if have is not None or nopost:
+        hv = sorted(have) if have is not None else names(6)
+        mods = os.path.join(d, 'mods-' + '-'.join(hv) + '-np-' + '-'.join(sorted(nopost)))
         if not os.path.isdir(mods):
             os.makedirs(mods)
-            for nm in have:
-                shutil.copy(os.path.join(b, 'stubs', 'stub.so'), os.path.join(mods, nm + '.so'))
+            for nm in hv:
+                shutil.copy(os.path.join(b, 'stubs', 'stub_nopost.so' if nm in nopost else 'stub.so'), os.path.join(mods, nm + '.so'))
     log = os.path.join(d, 'log')
     with open(os.path.join(d, 'graph'), 'w') as f:
         for k in sorted(graph):
@@ -89,7 +91,8 @@ def _run1(case):
 
 
 def judge(case, rc, ev, out, err):
-    graph, listing, have = case
+    graph, listing, have = case[:3]
+    nopost = case[3] if len(case) > 3 else frozenset()
     allnodes = set(graph) | {y for v in graph.values() for y in v} | set(listing)
     R = reach(graph, listing)
     missing = {m for m in R if have is not None and m not in have}
@@ -119,6 +122,8 @@ def judge(case, rc, ev, out, err):
     for m in sorted(allnodes):
         for what in ('ctor-begin', 'ctor-end', 'post-init', 'dtor'):
             n = cnt.get((what, m), 0)
+            if what == 'post-init' and m in nopost:
+                continue      # this module has no post-init entry point
             if m in R and n != 1:
                 V.append(('C20.count', '%s of %s happened %d times (expected once)' % (what, m, n)))
             if m not in R and n:
@@ -199,6 +204,18 @@ def cases(quick):
             g = {k: tuple(v) for k, v in g.items()}
             roots = [m for m in nm6 if not any(m in v for v in g.values())]
             cs.append((g, roots, None))
+    # modules without the optional post-init entry point: every graph on <= 3 nodes (no self-loops) x every subset of such modules,
+    # and every 4-node DAG with the shared/last node or all nodes lacking it
+    for n in (2, 3):
+        nm = names(n)
+        for g in all_graphs(n, False):
+            for k in range(1, n + 1):
+                for sub in itertools.combinations(nm, k):
+                    cs.append((g, [nm[0]], None, frozenset(sub))); cs.append((g, nm[::-1], None, frozenset(sub)))
+    for g in all_graphs(4, False):
+        if not cyclic(g, set(nm4)):
+            for sub in ((nm4[3],), (nm4[2],), tuple(nm4)):
+                cs.append((g, [nm4[0]], None, frozenset(sub)))
     # unloadable modules: a listed module, or a dependency, without a .so
     for g, l, have in [({'m1': ('m2',), 'm2': ()}, ['m1'], {'m1'}), ({'m1': (), 'm2': ()}, ['m1', 'm2'], {'m1'}), ({'m1': (), 'm2': ()}, ['m2', 'm1'], {'m1'}),
                        ({'m1': ('m2',), 'm2': ('m3',), 'm3': ()}, ['m1'], {'m1', 'm2'}), ({'m1': ('m2', 'm3'), 'm2': (), 'm3': ()}, ['m1'], {'m1', 'm3'}),
@@ -208,13 +225,13 @@ def cases(quick):
 
 
 def gstr(case):
-    g, l, have = case
+    g, l, have = case[:3]
     return 'graph {%s} listed (%s)%s' % ('; '.join('%s->%s' % (k, ','.join(v)) for k, v in sorted(g.items()) if v) or 'no edges', ', '.join(l),
-                                          '' if have is None else ' with .so files only for %s' % sorted(have))
+                                          ('' if have is None else ' with .so files only for %s' % sorted(have)) + ('' if len(case) < 4 or not case[3] else ' (no post-init entry point in %s)' % sorted(case[3])))
 
 
 def shape_class(case):
-    g, l, have = case
+    g, l, have = case[:3]
     R = reach(g, l)
     indeg = {}
     for a in R:
@@ -247,7 +264,8 @@ def main(tier):
             nev += len(ev)
             for cls, text in judge(case, rc, ev, out, err):
                 run.violation(cls + '/' + sc, '%s  [%s; exit %s; log: %s]' % (text, gstr(case), rc, ' '.join('%s:%s' % e for e in ev)[:300]),
-                              {'engine': 'E3 stubs', 'graph': {k: list(v) for k, v in case[0].items()}, 'listing': case[1], 'have': sorted(case[2]) if case[2] is not None else None},
+                              {'engine': 'E3 stubs', 'graph': {k: list(v) for k, v in case[0].items()}, 'listing': case[1], 'have': sorted(case[2]) if case[2] is not None else None,
+                               'nopost': sorted(case[3]) if len(case) > 3 else []},
                               dedup=cls + '/' + sc)
             if run.out_of_time(10):
                 run.cap('deadline after %d of %d configurations' % (done, len(cs)))
@@ -269,7 +287,7 @@ def main(tier):
 def replay(obj):
     r = obj['replay']
     b = build.build()
-    case = ({k: tuple(v) for k, v in r['graph'].items()}, r['listing'], set(r['have']) if r['have'] is not None else None)
+    case = ({k: tuple(v) for k, v in r['graph'].items()}, r['listing'], set(r['have']) if r['have'] is not None else None, frozenset(r.get('nopost') or []))
     rc, ev, out, err = run_case(b, case)
     print(gstr(case)); print('exit', rc); print('\n'.join('%s %s' % e for e in ev)); print(out[-600:]); print(err[-600:])
     V = judge(case, rc, ev, out, err)
